@@ -495,21 +495,42 @@ func genSeq(c *rig.Ctx, raw bool) SeqCase {
 	r := c.Rng
 	sc := SeqCase{Kind: "seq"}
 	var rules []proxyv1alpha1.DispatchPolicyRule
+	var prev [][]proxyv1alpha1.DispatchPolicyRule
 	for v, nv := 0, 1+r.Intn(3); v < nv; v++ {
-		ver := [][]map[string]interface{}{}
-		for i, n := 0, 1+r.Intn(4); i < n; i++ {
-			p := []map[string]interface{}{}
-			for j, k := 0, 1+r.Intn(3); j < k; j++ {
-				rule := mg.Rule(r, raw)
-				if r.Intn(2) == 0 { // make the optional identity fields decisive more often
-					rule.UserGroups, rule.Users = mg.List(r, raw), mg.List(r, raw)
-				}
-				rules = append(rules, rule)
-				p = append(p, mg.RuleJSON(rule))
+		var cur [][]proxyv1alpha1.DispatchPolicyRule
+		if prev != nil && r.Intn(2) == 0 {
+			// the next version is a MINIMAL edit of the previous one: one list of one rule changes ([] vs [""], "a b" vs
+			// "a","b", entries swapped / doubled / re-cased / dropped …) — what a comparison of two versions must not miss
+			for _, p := range prev {
+				cur = append(cur, append([]proxyv1alpha1.DispatchPolicyRule{}, p...))
 			}
-			ver = append(ver, p)
+			i := r.Intn(len(cur))
+			j := r.Intn(len(cur[i]))
+			cur[i][j] = mg.EditRule(r, cur[i][j], raw)
+		} else {
+			for i, n := 0, 1+r.Intn(4); i < n; i++ {
+				var p []proxyv1alpha1.DispatchPolicyRule
+				for j, k := 0, 1+r.Intn(3); j < k; j++ {
+					rule := mg.Rule(r, raw)
+					if r.Intn(2) == 0 { // make the optional identity fields decisive more often
+						rule.UserGroups, rule.Users = mg.List(r, raw), mg.List(r, raw)
+					}
+					p = append(p, rule)
+				}
+				cur = append(cur, p)
+			}
+		}
+		ver := [][]map[string]interface{}{}
+		for _, p := range cur {
+			pj := []map[string]interface{}{}
+			for _, rule := range p {
+				rules = append(rules, rule)
+				pj = append(pj, mg.RuleJSON(rule))
+			}
+			ver = append(ver, pj)
 		}
 		sc.Versions = append(sc.Versions, ver)
+		prev = cur
 	}
 	// object metadata along the history: generations count up, repeat (an event delivered again, or a metadata-only
 	// update), or restart at 1 under a new uid (delete + re-create under the same name); a third of the histories goes
